@@ -518,6 +518,16 @@ func extractRules(f *ast.File, codeStr map[string]string) (rules []rule, okShape
 				continue
 			}
 			be, ok := c.(*ast.BinaryExpr)
+			if ok && be.Op == token.NEQ { // in[n+i].F != constant
+				if i, fl, ok := inField(be.X); ok && fl != "Code" {
+					if v, ok := intLit(be.Y); ok {
+						r.guards = append(r.guards, fmt.Sprintf(".nec %d .%s (%d)", i, fl, v))
+						continue
+					}
+				}
+				good = false
+				continue
+			}
 			if !ok || be.Op != token.EQL {
 				good = false
 				continue
